@@ -1219,7 +1219,7 @@ func opChangeFileOption(e *Editor, ws *Workspace) (*Edit, bool) {
 			next = "false"
 		}
 	case "optimize":
-		next = map[string]string{"": "CODE_SIZE", "SPEED": "CODE_SIZE", "CODE_SIZE": "LITE_RUNTIME", "LITE_RUNTIME": "CODE_SIZE"}[cur]
+		next = map[string]string{"": "CODE_SIZE", "SPEED": "CODE_SIZE", "CODE_SIZE": "SPEED", "LITE_RUNTIME": "CODE_SIZE"}[cur]
 	default:
 		next = `"` + lowerSnakeToPascal(e.fresh()) + `"`
 	}
